@@ -215,8 +215,7 @@ def load_function(path, qual):
         # search direct children first, then nested statements (e.g. defs inside if/try)
         for child in body:
             if isinstance(child, (ast.FunctionDef, ast.ClassDef, ast.AsyncFunctionDef)) and child.name == p:
-                found = child
-                break
+                found = child           # no break: a later definition rebinds the name (typing.overload stubs come first)
         if found is None:
             for child in ast.walk(node):
                 if child is not node and isinstance(child, (ast.FunctionDef, ast.ClassDef)) and child.name == p:
@@ -365,6 +364,11 @@ def verify_function(eng):
             saved = st2.env
             st2.env = dict(saved)
             st2.env["result"] = res
+            for i, e in enumerate(getattr(c, "lemmas", [])):
+                # exit lemma: proved from the path's hypotheses like a postcondition, then available to the clauses after it
+                goal = z3.simplify(eng.spec_bool(e, st2))
+                eng.obls.append(Obligation(f"lemma[{i}]", "post", st2.hyps(), goal, getattr(out, "lineno", fn.lineno), e))
+                st2.assume(goal)
             for i, e in enumerate(c.ensures):
                 goal = eng.spec_bool(e, st2)
                 ob = Obligation(f"post[{i}]", "post", st2.hyps(), z3.simplify(goal), getattr(out, "lineno", fn.lineno), e)
